@@ -422,4 +422,43 @@ example : nonblank (wrap 5 "  ab cdefghij  k".toList).flatten = "abcdefghijk".to
   rw [wrap_content 5 (by decide)]
   decide
 
+/-! ### non-vacuity of the theorems about cells with style tags (hypothesis audit, rounds 8-9) -/
+
+/-- a table whose cells carry the tag `<hl>`, and the two formatters of a history: one that does not know the tag
+(it is text), one that knows it as a style (it takes no room) -/
+private def tagTable : Table :=
+  { header := some ["k".toList, "v".toList], rows := [["<hl>ab</hl>".toList, "c".toList]], n := 2 }
+
+/-- `visibleTable_shape` / `wfB_visible`: the hypothesis binds the visible table; same shape, same decision -/
+example : ∃ v, visibleTable (knownResolver ["hl".toList]) tagTable = .ok v ∧ v.n = 2 ∧
+    v.rows = [["ab".toList, "c".toList]] ∧
+    wfB Clikit.Gen.C14.ascii [0, 1] v 30 1 = wfB Clikit.Gen.C14.ascii [0, 1] tagTable 30 1 :=
+  ⟨_, rfl, (visibleTable_shape (knownResolver ["hl".toList]) tagTable _ rfl).1, by decide,
+    wfB_visible _ _ (knownResolver ["hl".toList]) tagTable _ 30 1 rfl⟩
+
+/-- `render_decided_styles`, both hypotheses discharged, for every `share` -/
+example (share : Nat → Nat → Nat → Nat) :
+    ∃ lines, renderFmt share Clikit.Gen.C14.ascii [0, 1] (knownResolver ["hl".toList]) tagTable 30 1 = .ok lines ∧
+      ∀ l ∈ lines, l.length ≤ 30 := by
+  obtain ⟨lines, h1, h2, _⟩ := render_decided_styles share Clikit.Gen.C14.ascii [0, 1] (knownResolver ["hl".toList])
+    tagTable _ 30 1 rfl (by decide)
+  exact ⟨lines, h1, h2⟩
+
+/-- `render_history_styles`: the same table rendered before and after `<hl>` becomes a style - both renderings are
+rectangles within the terminal -/
+example (share : Nat → Nat → Nat → Nat) :
+    ∀ r ∈ renderHistory share Clikit.Gen.C14.ascii [0, 1] tagTable 30 1 [knownResolver [], knownResolver ["hl".toList]],
+      ∃ lines, r = .ok lines ∧ ∀ l ∈ lines, l.length ≤ 30 := by
+  intro r hr
+  obtain ⟨lines, h1, h2, _⟩ := render_history_styles share Clikit.Gen.C14.ascii [0, 1] tagTable 30 1
+    [knownResolver [], knownResolver ["hl".toList]]
+    (by intro rv hrv; simp only [List.mem_cons, List.not_mem_nil, or_false] at hrv
+        rcases hrv with rfl | rfl <;> exact ⟨_, rfl⟩)
+    (by decide) r hr
+  exact ⟨lines, h1, h2⟩
+
+/-- the first hypothesis is not constantly true: a style closed by the tag of another one cannot be removed -/
+example : (visibleTable (knownResolver ["hl".toList, "b".toList])
+    { header := none, rows := [["<hl>x</b>".toList]], n := 1 }).toOption = none := by decide
+
 end Clikit.Props.C14
